@@ -82,7 +82,6 @@ Section Unamb.
   Definition subl (a b : list C) : bool := forallb (fun f => cmemb f b) a.
   Definition label_eqb (a b : slabel) : bool :=
     subl (fst a) (fst b) && subl (fst b) (fst a) && subl (snd a) (snd b) && subl (snd b) (snd a).
-  Definition cap : nat := 12.
 
   Definition scontrib (univ : list C) (L : slabelling) (s : astate K P) : list (N * slabel) :=
     match cons_transitions s, fail_next_state s with
@@ -104,7 +103,7 @@ Section Unamb.
     | l :: r => [fold_left (fun acc x => (sinter (fst acc) (fst x), sinter (snd acc) (snd x))) r l]
     end.
 
-  Definition slab_round (univ : list C) (A : automaton K P) (L : slabelling) : slabelling :=
+  Definition slab_round (cap : nat) (univ : list C) (A : automaton K P) (L : slabelling) : slabelling :=
     let contribs := flat_map (scontrib univ L) (au_states A) in
     map (fun s =>
            let id := a_id s in
@@ -113,13 +112,17 @@ Section Unamb.
              let ls := dedup label_eqb (flat_map (fun c => if N.eqb (fst c) id then [snd c] else []) contribs) in
              (id, if Nat.leb (length ls) cap then ls else merge_all ls))
         (au_states A).
-  Fixpoint slab_iter (univ : list C) (n : nat) (A : automaton K P) (L : slabelling) : slabelling :=
-    match n with O => L | S n' => slab_iter univ n' A (slab_round univ A L) end.
+  Fixpoint slab_iter (cap : nat) (univ : list C) (n : nat) (A : automaton K P) (L : slabelling) : slabelling :=
+    match n with O => L | S n' => slab_iter cap univ n' A (slab_round cap univ A L) end.
   Definition all_constraints (A : automaton K P) : list C :=
     dedup ceqb (flat_map (fun s => flat_map (fun e => match e_cons e with Some c => [c] | None => [] end) (a_out s)) (au_states A)).
-  Definition compute_slab (A : automaton K P) : slabelling :=
-    slab_iter (all_constraints A) (S (length (au_states A))) A
+  (** [cap]: the number of alternatives kept per state before they are merged; the
+      driver retries with a larger cap when a certificate fails with a smaller one
+      (the labelling is only a candidate, [slab_ok] / [cert_unamb] decide) *)
+  Definition compute_slab_cap (cap : nat) (A : automaton K P) : slabelling :=
+    slab_iter cap (all_constraints A) (S (length (au_states A))) A
               (map (fun s => (a_id s, if N.eqb (a_id s) (au_root A) then [([], [])] else [])) (au_states A)).
+  Definition compute_slab (A : automaton K P) : slabelling := compute_slab_cap 12 A.
 End Unamb.
 
 (** ** strings: the view of an accepting state's keys does not depend on the transition taken *)
